@@ -3,33 +3,49 @@ CHECK = {
     "suites": [suite("soak", "c18", 15, 240, stdin=True, race=True, exit_is_violation=True,
                      timeout={"quick": 600, "thorough": 1500})],
     "lean_sources": ["ClusterVerif/Model/C18.lean", "ClusterVerif/Spec/C18.lean", "ClusterVerif/Lemmas/C18.lean",
-                     "ClusterVerif/Gen/C18.lean"],
+                     "ClusterVerif/Gen/C18.lean", "ClusterVerif/Model/C18Source.lean", "ClusterVerif/Model/C18Sync.lean",
+                     "ClusterVerif/Model/C18SyncProgs.lean", "ClusterVerif/Lemmas/C18Sync.lean"],
     "search_seeds": {"quick": 1, "thorough": 2},
-    "rule": "n = seconds of soak per structure (alerts, window, metrics store+checker, operation tracker, stateless tracker, informers, crdt batching), "
+    "rule": "n = seconds of soak per structure (alerts, window, metrics store+checker, operation tracker, stateless tracker, informers, crdt batching, "
+            "tracker / crdt / Cluster life cycles: Shutdown racing the API), "
             "one -race child process per structure, all in parallel; every returned value is checked in the harness, a sample of returned lists "
             "(alert lists, window contents, StatusAll/GetAll/LatestValid/state listings) is printed as case lines and judged by the Lean clauses "
             "and, for alerts/window, compared with the sequential model; non-trivial = non-empty list / soak with operations; distinct by case line",
     "trusted_base": ["Go race detector (happens-before, reports only races that occur in the run)",
                      "harness/extract_c18: syntactic lockset extractor (go/ast, no type checker), its list of designated fields and mutexes",
-                     "fake IPFSConnector/PinTracker RPC services, StoreMonitor alerts channel, verif_export.go (VerifNewCluster, VerifAlertsHandler)"],
-    "assumptions": ["channel-, WaitGroup- and context-based ordering (shutdown paths, crdt batch queue, goroutine start) is outside the lockset theorems; "
-                    "it is only exercised by the -race soaks",
-                    "the extractor does not follow pointers to guarded data handed to other functions or packages (arguments, return values, RPC dispatch); "
-                    "function literals passed as call arguments are assumed to run synchronously",
+                     "fake IPFSConnector/PinTracker RPC services, StoreMonitor alerts channel, verif_export.go (VerifNewCluster, VerifAlertsHandler), verif_export_c18.go (VerifC18Prepare/Start: no-op tracer, peer manager, NewCluster's ready()+run() goroutine)",
+                     "Model/C18SyncProgs.lean: hand transcription of the shutdown protocols (tied to the source text by rfl only)"],
+    "assumptions": ["channel-, WaitGroup-, context- and go-statement ordering of the shutdown paths is covered for three hand-transcribed small-step models "
+                    "(stateless tracker, crdt consensus, Cluster flags), tied to the source by a text snapshot (rfl) only: that the Go functions behave like "
+                    "the transcribed programs is trusted; other uses of channels are only exercised by the -race soaks",
+                    "the extractor is syntactic (no type checker): it follows guarded data into same-package callees through the receiver and through "
+                    "parameters that receive `x.field` (or a bound parameter) directly, and records references leaving a function (return / send / store); "
+                    "not followed: guarded data reaching a callee through a local variable of non-container type, closures' parameters, RPC dispatch, "
+                    "other packages; function literals passed as call arguments are assumed to run synchronously; `api.Metric` values are assumed "
+                    "never to be written after they were stored into a window (payload list)",
+                    "a racy state of the synchronisation models = two threads about to access one cell, one writing (conflicting accesses simultaneously enabled); "
+                    "the step from 'no racy state is reachable' to 'every pair of conflicting accesses is happens-before ordered' is not proved",
                     "a soak that sees no race, panic or stall proves nothing by itself: the universal claim rests on the lockset theorems + the regenerated table",
                     "initialisation before publication is exempt: key/value initialisers inside the composite literal of the owning struct",
-                    "calls made while a component is still initialising (Consensus.Shutdown before Ready, SetClient after Shutdown) are not 'in use' and not exercised"],
+                    "calls made while a component is still initialising or after it was shut down (Consensus.Shutdown before Ready, SetClient after Shutdown, a second SetClient) "
+                    "are not 'in use' in the sense of the property text; the models REFUTE safety for them (witness schedules) and the soaks do not exercise them"],
 }
 META = {
     "text": "Kernel-checked: (1) lockset_drf: in every well-locked trace that follows a lock discipline (reads inside a hold of the location's mutex, writes inside an "
             "exclusive hold) any two conflicting accesses of different threads are separated by a release and a later acquisition of that mutex; static_disciplined / "
             "acyclic_no_deadlock: programs whose scripts pass the static lockset / lock-order check have only disciplined traces and never reach a state with every "
-            "unfinished thread blocked; (2) decide-theorems over a table regenerated from today's sources on every run: every access to a designated field "
-            "(alerts, shutdown flags, operation table and operation fields, metrics store/window/checker maps, informer rpcClient, crdt shutdown flag and batching fields) "
-            "holds its designated mutex (writes exclusively) and the nested-acquisition graph is acyclic; (3) alerts_safe: in the small-step model of Cluster.Alerts() vs "
-            "alertsHandler every returned list, under every interleaving, has no empty entry, no duplicate and no index error (the pre-fix order is refuted by example). "
-            "Runtime oracle: -race soaks of the real structures with structural checks, watchdog and panic capture.",
-    "note": "Partial by nature: channel/WaitGroup ordering and cross-package aliasing are not covered by the theorems; the table is produced by a syntactic extractor (trusted). "
+            "unfinished thread blocked; inline_preserves_lockOK: function summaries checked in every recorded calling context give inlined scripts that pass the flat check; "
+            "(2) decide-theorems over a table regenerated from today's sources on every run: every access to a designated field (directly, or through a parameter bound to "
+            "guarded data by a caller) holds its designated mutex (own locks + locks propagated along same-package call edges; writes exclusively) in EVERY calling context, "
+            "the contexts are closed under the call edges, references leaving a critical section are copies or point to objects with their own lock, the nested-acquisition "
+            "graph is acyclic; (3) alerts_safe: in the small-step model of Cluster.Alerts() vs alertsHandler every returned list, under every interleaving, has no empty entry, "
+            "no duplicate and no index error; (4) sync_drf + exhaustive exploration (closed-set certificates, soundness proved once) of small-step models with channels, "
+            "WaitGroups, cancellation and go statements: the stateless tracker and the crdt consensus component in use never send on / close a closed channel, deadlock or "
+            "reach a racy state under any interleaving; for Cluster the full statement is REFUTED (Shutdown racing ready(): deadlock, known finding K18b, replayed by a soak) "
+            "and proved for the restricted protocol; the models are tied to the source by a text snapshot (rfl). "
+            "Runtime oracle: -race soaks of the real structures and life cycles with structural checks, watchdog and panic capture; a clean soak proves nothing by itself.",
+    "note": "Partial by nature: channel/WaitGroup ordering is proved for three transcribed models only (text-snapshot tie); cross-package aliasing is not covered; the table is "
+            "produced by a syntactic extractor (trusted), now summary-based across same-package calls (calling contexts, parameter aliasing, escapes). "
             "Races are only observed, never excluded, by the soaks.",
-    "technique": "Lean 4 lockset/deadlock theorems + decide over extracted lock facts + small-step interleaving model + race-detector soak as implementation-side oracle",
+    "technique": "Lean 4 lockset/deadlock theorems + decide over extracted interprocedural lock facts + small-step interleaving models with exhaustive-exploration certificates + race-detector soak as implementation-side oracle",
 }
